@@ -484,10 +484,15 @@ Proof.
   - split; discriminate.
 Qed.
 
-(* the guard of the main theorem *)
+(* the guard of the main theorem: what the client helpers are assumed to build
+   (accepted algorithm - see Fxx-C14-1 -, sub = iss, the configured issuer in aud);
+   the correspondence run checks the real helpers against it through [spec] *)
+Definition helper_built_ok (v : vcfg) (d : sigdesc) (c : claims) : bool :=
+  string_in (sd_alg d) accepted_algs && String.eqb (c_sub c) (c_iss c) && string_in (v_issuer v) (c_aud c).
+
 Definition helper_alg_accepted (i : input) : bool :=
   match i with
-  | IAssert _ true _ _ _ _ _ (TJws d _) => string_in (sd_alg d) accepted_algs
+  | IAssert _ true v _ _ _ _ (TJws d c) => helper_built_ok v d c
   | _ => true
   end.
 
@@ -516,12 +521,13 @@ Proof.
 Qed.
 
 Lemma must_accept_model e v t cl t0 t1 d c :
-  t0 <= t1 -> string_in (sd_alg d) accepted_algs = true ->
+  t0 <= t1 -> helper_built_ok v d c = true ->
   must_accept e v t cl t0 t1 d c = true ->
   verify_assertion sym_verify v t t0 (TJws d c) = Ok c
   /\ entry_need e cl c.
 Proof.
-  intros Ht Hal H. unfold must_accept in H.
+  intros Ht Hb H. unfold must_accept in H. unfold helper_built_ok in Hb.
+  apply andb_true_iff in Hb. destruct Hb as [Hb Haud]. apply andb_true_iff in Hb. destruct Hb as [Hal Hsubiss].
   repeat (apply andb_true_iff in H; destruct H as [H ?]).
   rename H into Hw.
   split.
@@ -546,7 +552,7 @@ Qed.
 
 Lemma spec_assert_model e helper v t cl t0 t1 tok :
   t0 <= t1 ->
-  (helper = true -> forall d c, tok = TJws d c -> string_in (sd_alg d) accepted_algs = true) ->
+  (helper = true -> forall d c, tok = TJws d c -> helper_built_ok v d c = true) ->
   spec_assert e helper v t cl t0 t1 tok (model_assert e v t cl t0 tok) = true.
 Proof.
   intros Ht Hg. unfold spec_assert.
@@ -598,7 +604,7 @@ Qed.
 
 (* the recorded finding: a helper-built assertion for a registered Ed25519 key *)
 Definition eddsa_witness : input :=
-  IAssert EVerify true (mkV "https://op" (3600 * second) second SubIsIssuer)
+  IAssert EVerify true (mkV "https://op" (3600 * second) second SubIsIssuer CtorStorage)
     [("c", "k", 0%nat)] [] (1000 * second + 5) (1000 * second + 7)
     (TJws (mkSig true "EdDSA" "k" 0%nat true) (mkClaims "c" "c" ["https://op"] 1000 4600)).
 
@@ -611,7 +617,7 @@ Proof. exists eddsa_witness. exact eddsa_refuted. Qed.
 (* ---------------------------------------------------------------- non-vacuity *)
 
 Definition nv_table : keytable := [("c-alpha", "a1", 0%nat); ("c-beta", "b1", 1%nat)].
-Definition nv_v := mkV "https://op" (3600 * second) second SubIsIssuer.
+Definition nv_v := mkV "https://op" (3600 * second) second SubIsIssuer CtorKeySet.
 Definition nv_claims := mkClaims "c-alpha" "c-alpha" ["https://op"] 1000 4600.
 Definition nv_tok := TJws (mkSig true "RS256" "a1" 0%nat true) nv_claims.
 
